@@ -213,6 +213,47 @@ def split_hist(path):
             cur.append(l)
     return groups
 
+def _in_bounds(ts, lo, hi):
+    if lo[0] == "i" and ts < int(lo[1:]): return False
+    if lo[0] == "e" and ts <= int(lo[1:]): return False
+    if hi[0] == "i" and ts > int(hi[1:]): return False
+    if hi[0] == "e" and ts >= int(hi[1:]): return False
+    return True
+
+def _means_fit(items, outs, n, p):
+    """C10 read literally: are `outs` the means of consecutive buckets of one size b >= 1 over `items` (the library's own full read of
+    the range), the first starting at the first line, only a trailing incomplete bucket dropped, at most 2n of them? Timestamps: floor of
+    the mean; payload: the harness resampler (bytes from 128 on lose their lowest bit, byte-wise floor of the mean)."""
+    k, m = len(items), len(outs)
+    if m > 2 * n:
+        return False
+    if m == 0:
+        return True                       # a bucket size above the number of lines: nothing but an incomplete bucket
+    if k == 0 or m > k:
+        return False
+    ts = [int(x.split(":")[0]) for x in items]
+    pay = [[] if x.split(":")[1] == "-" else list(bytes.fromhex(x.split(":")[1])) for x in items]
+    dec = [[(v if v < 128 else v & ~1) for v in q] for q in pay]
+    pt = [0]
+    for v in ts: pt.append(pt[-1] + v)
+    pp = [[0] * (k + 1) for _ in range(p)]
+    for q in range(p):
+        for i2 in range(k):
+            pp[q][i2 + 1] = pp[q][i2] + (dec[i2][q] if q < len(dec[i2]) else 0)
+    ots = [int(x.split(":")[0]) for x in outs]
+    opay = [[] if x.split(":")[1] == "-" else list(bytes.fromhex(x.split(":")[1])) for x in outs]
+    for b in range(max(1, k // (m + 1)), k // m + 1):
+        if k // b != m or (pt[b] - pt[0]) // b != ots[0]:
+            continue
+        good = True
+        for j2 in range(m):
+            lo2, hi2 = j2 * b, (j2 + 1) * b
+            if (pt[hi2] - pt[lo2]) // b != ots[j2] or any(((pp[q][hi2] - pp[q][lo2]) // b) % 256 != (opay[j2][q] if q < len(opay[j2]) else -1) for q in range(p)):
+                good = False; break
+        if good:
+            return True
+    return False
+
 def collect(hs, script, impl, model, judge, hangs, merr):
     gi, gm, gj = split_hist(impl), split_hist(model), split_hist(judge)
     recs = []
@@ -328,7 +369,7 @@ def collect(hs, script, impl, model, judge, hangs, merr):
         # series this history created and no fault operation touched, whose sections follow from the accepted appends by the
         # 65534 rule - above it by at most K slots for every section from the one holding the first line read to the one
         # holding the last.
-        order, touched13, fullr, cname, cp = {}, set(), {}, None, None
+        order, touched13, fullr, cname, cp, ccaches = {}, set(), {}, None, None, False
         for j, op in enumerate(ops):
             a = ri[j] if j < len(ri) else None
             if a is None:
@@ -342,6 +383,7 @@ def collect(hs, script, impl, model, judge, hangs, merr):
                 m = re.match(r"ok p=(\d+)", res)
                 if m:
                     cname, cp = t[1], int(m.group(1))
+                    ccaches = "caches=-" not in op
                     if ko == "new":
                         order[cname] = []; touched13.discard(cname)
             elif ko == "close":
@@ -363,14 +405,25 @@ def collect(hs, script, impl, model, judge, hangs, merr):
                     fullr[(t[1], t[2])] = rt[2:]          # also when the judge rejected it: C13 and C14 speak of the library's own full read
                 else:
                     fullr.pop((t[1], t[2]), None)
+                # C02 read literally: a bounded read returns exactly the lines of the full read (of the same state) whose timestamps
+                # lie inside the bounds - for a series no fault operation touched
+                if (t[1], t[2]) != ("u", "u") and ("u", "u") in fullr and cname not in touched13 and "panic" not in res and "hang" not in res:
+                    rec["literal_reads"] = rec.get("literal_reads", 0) + 1
+                    want = [x for x in fullr[("u", "u")] if _in_bounds(int(x.split(":")[0]), t[1], t[2])]
+                    got = fullr.get((t[1], t[2]))
+                    if (got is not None and got != want) or (got is None and want and rt[:1] == ["err"]):
+                        lit = ("C02", "result %s :: got %s :: but of the %d lines the full read of the same state returned, %d lie inside these bounds%s" %
+                               (op, res[:160], len(fullr[("u", "u")]), len(want), (": " + " ".join(want[:3])) if want else ""))
             elif ko == "read_first_n" and cname and (t[2], t[3]) in fullr and t[1].isdigit() and int(t[1]) >= 1:
                 items = fullr[(t[2], t[3])]
+                rec["literal_reads"] = rec.get("literal_reads", 0) + 1
                 want = items[:min(int(t[1]), len(items))]
                 rt = res.split()
                 if items and not (rt[:1] == ["ok"] and rt[2:] == want) and "panic" not in res and "hang" not in res:
                     lit = ("C13", "result %s :: got %s :: but the full read of the same range just before returned %d lines beginning %s" % (op, res[:200], len(items), " ".join(items[:3])))
             elif ko == "n_lines" and cname and (t[1], t[2]) in fullr:
                 items = fullr[(t[1], t[2])]
+                rec["literal_reads"] = rec.get("literal_reads", 0) + 1
                 rt = res.split()
                 if rt[:1] == ["ok"] and len(rt) == 2 and rt[1].isdigit():
                     c = int(rt[1])
@@ -390,6 +443,18 @@ def collect(hs, script, impl, model, judge, hangs, merr):
                                    (op, res, len(items), sec[f0], sec[f1], len(items) + gen.K(cp) * (sec[f1] - sec[f0] + 1)))
                 elif rt[:1] == ["err"] and items:
                     lit = ("C14", "result %s :: got %s :: but the full read of the same range just before returned %d lines" % (op, res, len(items)))
+            elif ko == "read_n" and cname and not ccaches and cp is not None and (t[2], t[3]) in fullr and t[1].isdigit() and int(t[1]) >= 1:
+                # C10 read literally: without cache levels a resampling read returns bucket means of exactly the lines the full read of
+                # that range returns
+                rt = res.split()
+                items = fullr[(t[2], t[3])]
+                rec["literal_reads"] = rec.get("literal_reads", 0) + 1
+                if rt[:1] == ["ok"] and len(rt) >= 2 and rt[1].isdigit() and int(rt[1]) == len(rt) - 2:
+                    if not _means_fit(items, rt[2:], int(t[1]), cp):
+                        lit = ("C10", "result %s :: got %s :: not the means of equal consecutive buckets (at most %d) of the %d lines the full read of the same range just before returned" %
+                               (op, res[:160], 2 * int(t[1]), len(items)))
+                elif rt[:1] == ["err"] and len(items) >= int(t[1]):
+                    lit = ("C10", "result %s :: got %s :: but the full read of the same range just before returned %d lines" % (op, res, len(items)))
             if lit:
                 jf = {"op_index": j, "op": op, "what": lit[1], "props": [lit[0]], "consistency": True}
                 rec["judge_fails"].append(jf)
@@ -681,6 +746,7 @@ def check(pid, tier, seed):
         "ops_run": sum(r["nops"] for r in recs), "ops_judged": sum(r["judged"] for r in recs),
         "histories_undetermined": sum(1 for r in recs if r["undet"]),
         "literal_file_checks": sum(r.get("literal_checked", 0) for r in recs),
+        "literal_read_checks": sum(r.get("literal_reads", 0) for r in recs),
         "generator_errors": list(gen.GEN_ERRORS)[:20],
         "correspondence_disagreements": len(disagreements),
         "known_findings_hit": {k: len(v) for k, v in known_hits.items()},
